@@ -331,8 +331,8 @@ def real_cases(depth):
                                     'xtuml.persist.persist_database'],
       bound='tests/resources/Simple_Model.xtuml and Globals.xtuml; every single edit (rename, retype to 11 types, reorder, derive, '
             'toggle Mult/Cond, phrase, 5 row orders, added component) at every site x {whole, Comp} x {derived off, on}; '
-            'thorough: every pair of edits; non-trivial = script changes the reference description or the row order',
-      shards=6, weight=3)
+            'thorough: every pair of edits',
+      shards=8, weight=3)
 def real_models(ctx):
     for i, case in enumerate(real_cases(1 if ctx.quick else 2)):
         if i % ctx.nshards != ctx.shard:
@@ -378,7 +378,7 @@ def synth_cases(quick, rng_seed):
             'reflexive linked, subtype with 1-2 subtypes) x 16 Mult/Cond combinations x 5 package/component layouts x '
             '{whole, each component} x derived on/off (exhaustive); plus 400 (quick) / 6000 (thorough) seeded random diagrams '
             'with attributes of 10 types, second identifiers, derived attributes and a script of 0-2 edits',
-      shards=8, weight=3)
+      shards=7, weight=3)
 def synthesised(ctx):
     for i, case in enumerate(synth_cases(ctx.quick, ctx.seed)):
         if i % ctx.nshards != ctx.shard:
@@ -412,7 +412,7 @@ def entry_cases():
                                      'bridgepoint.gen_sql_schema.main', 'bridgepoint.ooaofooa.ModelLoader.build_component'],
       bound='load_component(file, name), gen_sql_schema.main (-c/-d/-o) and build_component on Simple_Model (+ a second component) '
             'and a two-component / nested-component synthesised diagram, whole model and each named component (26 cases)',
-      shards=2, weight=1)
+      shards=1, weight=1)
 def entry_points(ctx):
     for i, case in enumerate(entry_cases()):
         if i % ctx.nshards != ctx.shard:
